@@ -23,11 +23,13 @@ TRUSTED = [
     "Spec layer Mb2.Spec: transcription of the property text / Multiboot2 specification",
     "rustc layout and code generation, core::str / CStr, Box, ptr_meta (modelled, compared on generated inputs only)",
     "harness (Rust), check.py, FNV-1a-64 hashing of observations",
+    "tools/gen_source.py (translator: Rust struct definitions / ID and BASE_SIZE constants / one-line accessors -> lean/Mb2/Gen/Source.lean, regenerated on every run; the repr(C) layout algorithm it implements is the documented one; facts it cannot derive are `none` and counted below)",
 ]
 
 
 def setup():
     t0 = time.time()
+    print("source facts:", core.gen_source())
     ok, out = core.lake_build(["Mb2", "mb2drv"] + ["Mb2.Props." + p for p in sorted(core.load_index().keys())])
     if not ok:
         print(out[-4000:])
@@ -291,6 +293,7 @@ def main():
             "checker_cmd": "cd /verif/lean && lake build Mb2.Props.%s && lake env lean <generated #print axioms file>%s" % (prop, " && lake env leanchecker Mb2.Props.%s" % prop if tier == "thorough" else ""),
             "trusted_base": TRUSTED,
             "theorems": proof.get("axioms", {}),
+            "source_translation": proof.get("source_facts", {}),
             "evaluations": (len(cases) + streamed) * len(configs) + blk["values"],
             "distinct_nontrivial": len(nontrivial) + streamed_nontrivial,
             "rule": pd.rule,
